@@ -95,9 +95,17 @@ func (s *Sandbox) SetFailing(tasks []string, all []string) {
 	}
 }
 
+// AttachSandbox returns the sandbox rooted at root as laid out by NewSandbox.
+func AttachSandbox(root string) *Sandbox { return NewSandbox(root) }
+
 // Run performs one spok invocation in-process.
 func (s *Sandbox) Run(text string, force bool, tasks ...string) (out RunOut) {
 	s.ClearLog()
+	return s.RunNoClear(text, force, tasks...)
+}
+
+// RunNoClear is Run without touching the marker log first.
+func (s *Sandbox) RunNoClear(text string, force bool, tasks ...string) (out RunOut) {
 	defer func() {
 		if r := recover(); r != nil {
 			out.Panic = fmt.Sprintf("panic: %v\n%s", r, firstLines(string(debug.Stack()), 12))
